@@ -305,7 +305,11 @@ func visitInstr(fr *frame, instr ssa.Instruction) continuation {
 
 	case *ssa.Go:
 		fn, args := prepareCall(fr, &instr.Call)
-		fr.i.x.spawned = append(fr.i.x.spawned, spawn{fn: fn, args: args, pos: instr.Pos()})
+		if fr.i.x.coop() {
+			fr.i.x.spawnCoop(fr.i, fn, args, instr.Pos())
+		} else {
+			fr.i.x.spawned = append(fr.i.x.spawned, spawn{fn: fn, args: args, pos: instr.Pos()})
+		}
 
 	case *ssa.MakeChan:
 		fr.env[instr] = &vchan{cap: int(fr.i.x.concretize(fr.get(instr.Size))), elem: instr.Type().Underlying().(*types.Chan).Elem()}
